@@ -70,6 +70,33 @@ def sweeps(tier):
                 oid += 1
             cases.append({'kind': 'rsp:43', 'fields': {'read_code': 3, 'conformity': 0x83, 'more': 0, 'next_id': 0, 'objects': objs}})
     out.append(('identification-responses-up-to-the-exact-fit', cases, True))
+    # file-record, event-log and slave-id messages at every size up to the largest that fits a 253-byte PDU
+    cases = []
+    for n in range(1, 36):          # 35 sub-requests of 7 bytes = 245 bytes
+        cases.append({'kind': 'req:20', 'fields': {'records': [{'file': i + 1, 'record': (i * 37) & 0x270F, 'length': 1 + i % 3} for i in range(n)]}})
+    for words in list(range(1, 8)) + list(range(116, 125)):      # one record: 2 + 2*words <= 251
+        if 2 + 2 * words > 251:
+            break
+        cases.append({'kind': 'rsp:20', 'fields': {'records': [{'data': ''.join('%04x' % ((i * 259 + 7) & 0xFFFF) for i in range(words))}]}})
+    for words in list(range(1, 8)) + list(range(114, 123)):      # one record: 7 + 2*words <= 251
+        if 7 + 2 * words > 251:
+            break
+        rec = {'file': 4, 'record': 7, 'data': ''.join('%04x' % ((i * 263 + 5) & 0xFFFF) for i in range(words))}
+        cases.append({'kind': 'req:21', 'fields': {'records': [rec]}})
+        cases.append({'kind': 'rsp:21', 'fields': {'records': [rec]}})
+    for n in range(2, 13):           # several records sharing the PDU
+        w = max(1, (251 // n - 7) // 2)
+        recs = [{'file': 1 + i, 'record': i, 'data': ''.join('%04x' % ((i * 17 + j) & 0xFFFF) for j in range(w))} for i in range(n)]
+        cases.append({'kind': 'req:21', 'fields': {'records': recs}})
+        cases.append({'kind': 'rsp:20', 'fields': {'records': [{'data': r['data']} for r in recs]}})
+    for n in list(range(0, 5)) + [62, 63, 64]:
+        cases.append({'kind': 'rsp:12', 'fields': {'status_word': 0xFFFF, 'event_count': 0x0102, 'message_count': 0x0304, 'events': [(i * 5) & 0xFF for i in range(n)]}})
+    for n in list(range(0, 5)) + [200, 248, 249, 250]:
+        cases.append({'kind': 'rsp:17', 'fields': {'identifier': ''.join('%02x' % ((i * 3 + 1) & 0xFF) for i in range(n)), 'run': bool(n % 2)}})
+    for n in list(range(1, 6)) + [60, 100, 124, 125]:
+        cases.append({'kind': 'req:8', 'fields': {'sub': 0, 'data': [(i * 9 + 1) & 0xFFFF for i in range(n)]}})
+        cases.append({'kind': 'rsp:8', 'fields': {'sub': 0, 'data': [(i * 9 + 1) & 0xFFFF for i in range(n)]}})
+    out.append(('variable-length-messages-up-to-the-largest-that-fits', cases, False))
     return out
 
 
